@@ -1,9 +1,16 @@
 /-
 Proofs of the tie between the generated DIMACS token model (`Gen/CnfTokenGen.lean`, from
 `flussab-cnf/src/token.rs`) and `Model/CnfToken.lean`.  Statements: `Props/TieCnfToken.lean`.
+
+The functions built from closures and `flussab::Parsed` combinators are generated as applications of the
+contracts of `Model/CnfTokenExt.lean` to the value of the receiver; their ties unfold those contracts.  Errors
+that are bound further (`e >>= f` for an `e` that always throws) are removed by `giveUpAt_bind`.
+`non_terminating_linebreaks` needs that the loop's fuel is never used up (`lines_loop`, with the rules of
+`Proof/PMHoare.lean` for "a match consumes input").
 -/
 import Flussab.Gen.CnfTokenGen
 import Flussab.Model.CnfToken
+import Flussab.Proof.PMHoare
 
 namespace Flussab
 namespace TieCnfTokenAux
@@ -117,6 +124,282 @@ theorem interactiveSkipLine_eq : Gen.CnfToken.interactiveSkipLine = Cnf.interact
 theorem newlineTok_eq : Gen.CnfToken.newlineTok = Cnf.newline := rfl
 theorem interactiveNewline_eq : Gen.CnfToken.interactiveNewline = Cnf.interactiveNewline := rfl
 theorem interactiveStrictComment_eq : Gen.CnfToken.interactiveStrictComment = Cnf.interactiveStrictComment := rfl
+
+/-! ### functions built from closures and `Parsed` combinators -/
+
+open PM
+
+variable {α β : Type}
+
+theorem pure_apply (a : α) (lr : LR) : (pure a : PM α) lr = (.ok a, lr) := rfl
+theorem get_apply (lr : LR) : (get : PM LR) lr = (.ok lr, lr) := rfl
+theorem getLR_apply (lr : LR) : PMExt.getLR lr = (.ok lr, lr) := rfl
+
+theorem giveUpAt_apply (pos : Nat) (lr : LR) :
+    (giveUpAt pos : PM α) lr =
+      (.error (if lr.v.ioErr then .io
+               else if pos < lr.lineStart then .panic "column underflow (position before line start)"
+               else .syn lr.line (pos - lr.lineStart + 1)),
+       { lr with v := { lr.v with ioErr := false } }) := by
+  unfold giveUpAt View.checkIoError
+  rw [bind_apply, get_apply]
+  simp only []
+  rw [bind_apply]
+  by_cases h1 : lr.v.ioErr = true
+  · simp only [h1, if_true]; rfl
+  · by_cases h2 : pos < lr.lineStart
+    · simp only [h1, h2, if_true]; rfl
+    · simp only [h1, h2, if_false]; rfl
+
+theorem giveUpAt_bind (pos : Nat) (f : α → PM β) : ((giveUpAt pos : PM α) >>= f) = giveUpAt pos := by
+  funext lr
+  rw [bind_apply, giveUpAt_apply, giveUpAt_apply]
+
+theorem giveUp_bind (f : α → PM β) : ((giveUp : PM α) >>= f) = giveUp := by
+  unfold giveUp
+  rw [bind_assoc]
+  congr 1; funext p
+  exact giveUpAt_bind p f
+
+theorem exceedsVarCount_bind (f : α → PM β) : ((Cnf.exceedsVarCount : PM α) >>= f) = Cnf.exceedsVarCount := by
+  unfold Cnf.exceedsVarCount
+  rw [bind_assoc]
+  congr 1; funext p
+  exact giveUpAt_bind p f
+
+theorem interactiveEndOfLine_eq : Gen.CnfToken.interactiveEndOfLine = Cnf.interactiveEndOfLine := by
+  unfold Gen.CnfToken.interactiveEndOfLine Cnf.interactiveEndOfLine PM.orParse
+  rw [interactiveNewline_eq, eof_eq]
+  congr 1
+
+theorem maxDimacs_nonneg (l : Cnf.LitTy) : 0 ≤ l.maxDimacs := by
+  unfold Cnf.LitTy.maxDimacs
+  have : 0 < 2 ^ (l.bits - 1) := Nat.two_pow_pos _
+  omega
+
+theorem isizeAsUsize_maxDimacs (l : Cnf.LitTy) : CnfTokenExt.isizeAsUsize l.maxDimacs = l.maxDimacs := by
+  unfold CnfTokenExt.isizeAsUsize
+  rw [if_pos (maxDimacs_nonneg l)]
+
+theorem varCount_eq (l : Cnf.LitTy) : Gen.CnfToken.varCount l = Cnf.varCount l := by
+  unfold Gen.CnfToken.varCount Cnf.varCount
+  rw [uint_eq, isizeAsUsize_maxDimacs]
+  congr 1; funext _; congr 1; funext r
+  rcases r with _ | _ | v
+  · rfl
+  · exact exceedsVarCount_bind _
+  · show (pure (some v) >>= _) = _
+    rw [pure_bind]
+    unfold CnfTokenExt.andAlso
+    by_cases h : v > l.maxDimacs
+    · simp only [h, decide_true, if_true]
+      exact exceedsVarCount_bind _
+    · simp only [h, decide_false, Bool.false_eq_true, if_false]
+      rfl
+
+theorem uintCount_eq (t : IntTy) (w : Unit) : Gen.CnfToken.uintCount t w = Cnf.uintCount t := by
+  unfold Gen.CnfToken.uintCount Cnf.uintCount
+  rw [uint_eq]
+  congr 1; funext _; congr 1; funext r
+  rcases r with _ | _ | v <;> rfl
+
+theorem clauseGroup_eq (limit : Nat) (hl : Bool) : Gen.CnfToken.clauseGroup limit hl = Cnf.clauseGroup limit := by
+  unfold Gen.CnfToken.clauseGroup Cnf.clauseGroup
+  rw [bracedUint_eq]
+  congr 1; funext _; congr 1; funext r
+  rcases r with _ | _ | v
+  · rfl
+  · exact giveUp_bind _
+  · show (pure (some v) >>= _) = _
+    rw [pure_bind]
+    unfold CnfTokenExt.andAlso
+    by_cases h : v > (limit : Int)
+    · simp only [h, decide_true, if_true]
+      rw [bind_assoc]
+      show _ = Cnf.exceedsVarCount
+      unfold Cnf.exceedsVarCount
+      congr 1; funext p
+      rw [bind_assoc]
+      exact giveUpAt_bind p _
+    · simp only [h, decide_false, Bool.false_eq_true, if_false]
+      rfl
+
+/-! ### `non_terminating_linebreaks`: the comment / newline loop
+
+The generated loop and `Cnf.skipLinesLoop` differ in their out-of-fuel value (`rpanic "generated"` /
+`rpanic "fuel"`).  Both start with fuel `rest.length + 1`, and every iteration that does not leave the
+loop has consumed at least one byte (`prog_lines`: `advance n` with `n ≠ 0` succeeds only inside the
+remaining input), so neither is ever reached: the equation holds for every state. -/
+
+/-- Errors are not constrained. -/
+def T : PErr → LR → Prop := fun _ _ => True
+
+theorem demand_rest (v : View) (k : Nat) : (v.demand k).rest = v.rest := by
+  unfold View.demand; dsimp only; split <;> rfl
+
+theorem wp_advance (n : Nat) (lr : LR) :
+    Wp T (advance n) lr (fun _ lr1 => lr1.v.rest.length + n = lr.v.rest.length) := by
+  unfold PM.advance
+  refine Wp.bind (Wp.get ?_)
+  unfold View.advance View.demanded
+  split
+  · rename_i v' hv
+    split at hv
+    · cases hv
+      show (lr.v.rest.drop n).length + n = lr.v.rest.length
+      rw [List.length_drop]; omega
+    · cases hv
+  · trivial
+
+theorem wp_lineAtOffset (off : Nat) (lr : LR) :
+    Wp T (lineAtOffset off) lr (fun _ lr1 => lr1.v = lr.v) := by
+  unfold Wp
+  show Res T _ (lineAtOffset off lr)
+  rw [lineAtOffset_apply]
+  split
+  · trivial
+  · rfl
+
+theorem tabs_fst (v : View) (off : Nat) : off ≤ (Text.tabsOrSpaces v off).1 := by
+  unfold Text.tabsOrSpaces; simp
+theorem tabs_rest (v : View) (off : Nat) : (Text.tabsOrSpaces v off).2.rest = v.rest := by
+  unfold Text.tabsOrSpaces; exact demand_rest _ _
+theorem nextNewline_fst (v : View) (off : Nat) : off ≤ (Text.nextNewline v off).1 := by
+  unfold Text.nextNewline; simp only []; omega
+theorem nextNewline_rest (v : View) (off : Nat) : (Text.nextNewline v off).2.rest = v.rest := by
+  unfold Text.nextNewline; exact demand_rest _ _
+theorem newline_rest (v : View) (off : Nat) : (Text.newline v off).2.rest = v.rest := by
+  unfold Text.newline
+  split
+  · exact demand_rest _ _
+  · split
+    · simp only [demand_rest]
+    · simp only [demand_rest]
+  · exact demand_rest _ _
+
+/-- What the loop needs of a line-level token: a match consumes input, a fall-through none. -/
+abbrev ProgPost (lr : LR) (o : Option Unit) (lr1 : LR) : Prop :=
+  (o.isSome = true → lr1.v.rest.length < lr.v.rest.length) ∧ (o = none → lr1.v.rest = lr.v.rest)
+
+theorem prog_comment (lr : LR) : Wp T Cnf.comment lr (ProgPost lr) := by
+  unfold Cnf.comment
+  refine Wp.bind (Wp.reqAt ?_)
+  split
+  · refine Wp.bind (Wp.scan ?_)
+    refine Wp.bind' (wp_lineAtOffset _ _) ?_
+    intro _ lr1 h1
+    refine Wp.bind (Wp.scan ?_)
+    refine Wp.bind' (wp_advance _ _) ?_
+    intro _ lr2 h2
+    refine Wp.pure ⟨fun _ => ?_, fun h => by cases h⟩
+    simp only [h1, tabs_rest, nextNewline_rest, demand_rest] at h2
+    have a1 := tabs_fst (Text.nextNewline (lr.v.demand 0) 1).2 (Text.nextNewline (lr.v.demand 0) 1).1
+    have a2 := nextNewline_fst (lr.v.demand 0) 1
+    omega
+  · exact Wp.pure ⟨fun h => (by cases h), fun _ => demand_rest _ _⟩
+
+theorem prog_newline (lr : LR) : Wp T Cnf.newline lr (ProgPost lr) := by
+  unfold Cnf.newline
+  refine Wp.bind (Wp.scan ?_)
+  split
+  · rename_i hne
+    refine Wp.bind' (wp_lineAtOffset _ _) ?_
+    intro _ lr1 h1
+    refine Wp.bind (Wp.scan ?_)
+    refine Wp.bind' (wp_advance _ _) ?_
+    intro _ lr2 h2
+    refine Wp.pure ⟨fun _ => ?_, fun h => by cases h⟩
+    simp only [h1, tabs_rest, newline_rest] at h2
+    have a1 := tabs_fst (Text.newline lr.v 0).2 (Text.newline lr.v 0).1
+    have : (Text.newline lr.v 0).1 ≠ 0 := by simpa using hne
+    omega
+  · exact Wp.pure ⟨fun h => (by cases h), fun _ => newline_rest _ _⟩
+
+theorem prog_lines (lr : LR) : Wp T («matches» (orParse Cnf.comment Cnf.newline)) lr
+    (fun c lr1 => c = true → lr1.v.rest.length < lr.v.rest.length) := by
+  unfold «matches» orParse
+  refine Wp.bind ?_
+  refine Wp.bind' (prog_comment lr) ?_
+  intro o lr1 h1
+  split
+  · refine Wp.pure (Wp.pure ?_)
+    intro _
+    exact h1.1 rfl
+  · refine Wp.mono (prog_newline lr1) ?_
+    intro o2 lr2 h2
+    refine Wp.pure ?_
+    intro hc
+    have := h2.1 hc
+    rw [h1.2 rfl] at this
+    exact this
+
+/-- One iteration of the generated loop, in terms of the model's test. -/
+theorem lines_step (f : Nat) : Gen.CnfToken.nonTerminatingLinebreaks.loop1 (f + 1) () =
+    («matches» (orParse Cnf.comment Cnf.newline) >>= fun c =>
+      if c = true then Gen.CnfToken.nonTerminatingLinebreaks.loop1 f () else pure (Ctl.brk ())) := by
+  rw [Gen.CnfToken.nonTerminatingLinebreaks.loop1]
+  unfold «matches» orParse CnfTokenExt.orParse
+  rw [comment_eq, newlineTok_eq]
+  simp only [bind_assoc]
+  congr 1; funext o
+  rcases o with _ | a
+  · simp only []
+    congr 1; funext o2
+    cases o2 <;> simp
+  · simp
+
+/-- The generated loop is the model's loop; the fuel `rest.length + 1` is never used up (every further
+iteration has consumed at least one byte), so the different out-of-fuel values do not matter. -/
+theorem lines_loop (fuel : Nat) : ∀ lr : LR, lr.v.rest.length < fuel →
+    Gen.CnfToken.nonTerminatingLinebreaks.loop1 fuel () lr =
+      (Cnf.skipLinesLoop fuel >>= fun _ => (pure (Ctl.brk ()) : PM (Ctl Unit Bool))) lr := by
+  induction fuel with
+  | zero => intro lr h; omega
+  | succ fuel ih =>
+    intro lr hf
+    rw [lines_step, Cnf.skipLinesLoop, bind_assoc, bind_apply, bind_apply]
+    have hp := (Wp.of_run (prog_lines lr)).1
+    cases hm : «matches» (orParse Cnf.comment Cnf.newline) lr with
+    | mk r lr1 =>
+      cases r with
+      | error e => rfl
+      | ok c =>
+        simp only []
+        cases c with
+        | false => rfl
+        | true =>
+          simp only [if_true]
+          have := hp true lr1 hm rfl
+          exact ih lr1 (by omega)
+
+theorem nonTerminatingLinebreaks_eq : Gen.CnfToken.nonTerminatingLinebreaks = Cnf.nonTerminatingLinebreaks := by
+  funext lr
+  unfold Gen.CnfToken.nonTerminatingLinebreaks Cnf.nonTerminatingLinebreaks «matches»
+  rw [newlineTok_eq, bind_assoc, bind_apply, bind_apply]
+  cases Cnf.newline lr with
+  | mk r lr1 =>
+    cases r with
+    | error e => rfl
+    | ok o =>
+      simp only []
+      rw [pure_bind]
+      cases o with
+      | none => rfl
+      | some u =>
+        simp only [Option.isSome_some, if_true]
+        rw [bind_apply, getLR_apply]
+        simp only []
+        rw [bind_apply, lines_loop _ lr1 (by omega)]
+        rw [bind_apply, bind_apply]
+        have hg : (get : PM LR) lr1 = (.ok lr1, lr1) := rfl
+        rw [hg]
+        simp only []
+        rw [bind_apply]
+        cases Cnf.skipLinesLoop (lr1.v.rest.length + 1) lr1 with
+        | mk r2 lr2 =>
+          cases r2 with
+          | error e => rfl
+          | ok a => rfl
 
 end TieCnfTokenAux
 end Flussab
